@@ -234,6 +234,16 @@ func cell(t *testing.T, prop, kind, cellName string, n int, draw func(*rapid.T) 
 		}
 		_ = flag.Set("rapid.seed", strconv.FormatUint(seed, 10))
 		var lastFile, lastMsg string
+		defer func() {
+			// rapid ends a failing check with FailNow (Goexit): report from a deferred call
+			if lastFile != "" {
+				failCount++
+				fmt.Printf("VERIF-FAIL property=%s replay=%s cell=%s msg=%s\n", prop, lastFile, cellName, oneLine(lastMsg))
+				rec.mu.Lock()
+				rec.Failures = append(rec.Failures, failure{Prop: prop, Cell: cellName, Replay: lastFile, Msg: oneLine(lastMsg)})
+				rec.mu.Unlock()
+			}
+		}()
 		rapid.Check(t, func(rt *rapid.T) {
 			c := draw(rt)
 			if c == nil {
@@ -260,13 +270,6 @@ func cell(t *testing.T, prop, kind, cellName string, n int, draw func(*rapid.T) 
 			lastMsg = msg
 			rt.Fatalf("%s", msg)
 		})
-		if lastFile != "" {
-			failCount++
-			fmt.Printf("VERIF-FAIL property=%s replay=%s cell=%s msg=%s\n", prop, lastFile, cellName, oneLine(lastMsg))
-			rec.mu.Lock()
-			rec.Failures = append(rec.Failures, failure{Prop: prop, Cell: cellName, Replay: lastFile, Msg: oneLine(lastMsg)})
-			rec.mu.Unlock()
-		}
 	})
 }
 
